@@ -50,6 +50,9 @@ impl<const BITS: usize, const LIMBS: usize> Uint<BITS, LIMBS> {
         #[allow(clippy::cast_precision_loss)] // Approximation is good enough.
         #[allow(clippy::cast_sign_loss)] // Result should be positive.
         let mut result = Self::approx_pow2(self.approx_log2() / degree as f64).unwrap();
+        #[cfg(feature = "recmo_uint_verif")]
+        #[allow(clippy::cast_precision_loss)]
+        crate::verif_hooks::tap((self.approx_log2() / degree as f64).to_bits());
 
         let deg_m1 = Self::from(degree - 1);
 
